@@ -182,7 +182,14 @@ class Tr:
             if kw.arg is None or kw.arg not in names or kw.arg in given:
                 raise Unsupported("keyword of helper " + fn.name)
             given[kw.arg] = kw.value
-        env2 = {k: v for k, v in env.items() if k.startswith("self.")}
+        def about_self(k):
+            # facts about the object itself (`self.a`, `len(self._y)`) stay valid inside the helper
+            try:
+                ids = {x.id for x in ast.walk(ast.parse(k, mode="eval")) if isinstance(x, ast.Name)}
+            except SyntaxError:
+                return False
+            return "self" in ids and ids <= {"self", "len", "abs", "np", "pd"}
+        env2 = {k: v for k, v in env.items() if about_self(k)}
         for n in names:
             node = given.get(n)
             try:
@@ -442,6 +449,15 @@ class Tr:
             key = ast.unparse(s.targets[0])
             t, ty = self.expr(s.value, env)
             want = self.cfg["state"][key]
+            if is_rtype(ty) and self.kind in ("rfun", "proc", "rgen") \
+                    and (ty[1:] == want or OPTION_OF.get(want) == ty[1:]):
+                # `self.a = <call that may raise>`: the attribute is set only if the call returns
+                v = cname(re.sub(r"[^A-Za-z0-9_]", "_", key.split(".")[-1]).strip("_") or "a") + "_r"
+                inner = "(Some %s)" % v if ty[1:] != want else v
+                env2 = dict(env)
+                env2[key] = (inner, want)
+                body, bty = self.block(rest, env2)
+                return "(match %s with Err => Err | Ok %s => %s end)" % (t, v, body), bty
             if ty != want and OPTION_OF.get(want) == ty:
                 t, ty = "(Some %s)" % t, want
             self.need(ty, want, s)
@@ -511,6 +527,9 @@ class Tr:
                     return t, ty
                 self.need(ty, self.cfg.get("ret", "Z"), s)
                 return "(Ok %s)" % t, "R" + ty
+            if self.kind == "proc" and (s.value is None or (
+                    isinstance(s.value, ast.Constant) and s.value.value is None)):
+                return self.finish(env)        # early `return` of a procedure
             raise Unsupported("return in generator/procedure")
         if isinstance(s, ast.Expr) and isinstance(s.value, ast.Yield):
             t, ty = self.expr(s.value.value, env)
